@@ -50,6 +50,24 @@ thread_local! {
 
 const MAX_MONO: usize = 4;
 
+thread_local! {
+    // set when the guard below answered `deadlock`: the real process would never answer again
+    static HUNG: std::cell::Cell<bool> = const { std::cell::Cell::new(false) };
+}
+
+/// Debug builds: `alloc_pages` calls `log_chunk_fields` — which locks `self.sync` — while it holds that very mutex,
+/// whenever the cursor is neither in `current_chunk` nor in the chunk after it. The call would never return (shown
+/// once per check run by a probe under a timeout, with VERIF_NO_DEADLOCK_GUARD set), so the harness answers
+/// `deadlock` INSTEAD of calling; the condition is read from the real fields.
+fn would_self_deadlock(m: &hook::Mono<crate::VerifVM>) -> bool {
+    if !cfg!(debug_assertions) || std::env::var_os("VERIF_NO_DEADLOCK_GUARD").is_some() {
+        return false;
+    }
+    let (cur, _, cc) = m.fields();
+    let al = cur.as_usize() & !((1 << LOG_CHUNK) - 1);
+    cc.as_usize() > cur.as_usize() || (al != cc.as_usize() && al != cc.as_usize() + (1 << LOG_CHUNK))
+}
+
 fn lenient(s: &str) -> Option<usize> {
     if let Some(h) = s.strip_prefix("0x") {
         usize::from_str_radix(h, 16).ok()
@@ -136,6 +154,7 @@ pub fn run(args: &[&str]) -> String {
     if let ["new", n] = args {
         M.with(|m| m.borrow_mut().clear()); // the monotone resources point into the old map: drop them first
         D.with(|d| *d.borrow_mut() = None); // drop the old tables first
+        HUNG.with(|h| h.set(false));
         if sparse {
             for c in FIRST - 1..=LAST + 1 {
                 hook::sft_clear(ca(c));
@@ -156,6 +175,10 @@ pub fn run(args: &[&str]) -> String {
     D.with(|d| {
         let d = d.borrow();
         let Some(d) = d.as_ref() else { return "no-instance".to_string() };
+        let hung = HUNG.with(|h| h.get());
+        if hung && matches!(args, ["grow", _, _, _] | ["release", _, _] | ["releaseall", _] | ["state"]) && args.iter().skip(1).take(1).all(|s| args[0] == "state" || unum(s) < d.spaces()) {
+            return "panic:other".to_string();
+        }
         let sp_ok = |s: &str| unum(s) < d.spaces();
         match args {
             ["grow", sp, raw, n] if sp_ok(sp) => {
@@ -182,6 +205,9 @@ pub fn run(args: &[&str]) -> String {
                 }
                 let pr = d.new_mono::<crate::VerifVM>(raw);
                 M.with(|m| m.borrow_mut().push(MonoRes { pr, grants: Vec::new() }));
+                if hung {
+                    return "panic:other".to_string();
+                }
                 format!("ok {}", state(d, sparse))
             }
             ["malloc", k, pages] => {
@@ -189,10 +215,18 @@ pub fn run(args: &[&str]) -> String {
                 if k >= M.with(|m| m.borrow().len()) || pages >= 1 << 32 {
                     return "bad-op".to_string();
                 }
+                if hung {
+                    return "panic:other".to_string();
+                }
                 // the RefCell borrow is released before the call: a panic inside must not leave it borrowed
                 let r = {
                     let p: *const hook::Mono<crate::VerifVM> = M.with(|m| &m.borrow()[k].pr as *const _);
-                    unsafe { &*p }.acquire(pages)
+                    let p = unsafe { &*p };
+                    if would_self_deadlock(p) {
+                        HUNG.with(|h| h.set(true));
+                        return "deadlock".to_string();
+                    }
+                    p.acquire(pages)
                 };
                 match r {
                     Some((start, n, new_chunk)) => {
@@ -207,6 +241,9 @@ pub fn run(args: &[&str]) -> String {
                 let Some(k) = lenient(k) else { return "bad-op".to_string() };
                 if k >= M.with(|m| m.borrow().len()) {
                     return "bad-op".to_string();
+                }
+                if hung {
+                    return "panic:other".to_string();
                 }
                 let p: *const hook::Mono<crate::VerifVM> = M.with(|m| &m.borrow()[k].pr as *const _);
                 unsafe { &*p }.reset();
